@@ -40,7 +40,12 @@ func (s *fsrv) openConns() int {
 // lifeScenario: one upstream kind, one close scenario
 func lifeScenario(kind, what string, rng *rand.Rand) {
 	sc := fmt.Sprintf("%s/%s", kind, what)
-	s := newFsrv(kind)
+	skind := kind
+	if what == "blackhole" {
+		skind = "udp-blackhole" // a peer that never answers: the QUIC / UDP dial or handshake cannot complete
+	}
+	s := newFsrv(skind)
+	s.kind = kind
 	s.closeOnEOF.Store(true)
 	defer s.close()
 	time.Sleep(20 * time.Millisecond)
@@ -132,6 +137,14 @@ func lifeScenario(kind, what string, rng *rand.Rand) {
 		doClose(1)
 		wg.Wait()
 		time.Sleep(300 * time.Millisecond)
+	case "blackhole": // Close while the connection attempt (QUIC handshake) is still hanging
+		for i := 0; i < 2; i++ {
+			wg.Add(1)
+			go func() { defer wg.Done(); one(3*time.Second, "during") }()
+		}
+		time.Sleep(150 * time.Millisecond)
+		doClose(1)
+		wg.Wait()
 	case "timeout-then-close": // an exchange timed out on a healthy connection, then Close
 		one(time.Second, "before")
 		s.fault.Store("noreply")
@@ -149,11 +162,14 @@ func modeLife(thorough bool) {
 	onlyEvents = map[string]bool{}
 	rng := rand.New(rand.NewSource(seed))
 	kinds := []string{"udp", "tcp", "tcp+pipeline", "tls", "tls+pipeline", "https", "quic"}
-	whats := []string{"idle", "inflight", "latedial", "timeout-then-close"}
+	whats := []string{"idle", "inflight", "latedial", "timeout-then-close", "blackhole"}
 	// sequential: the socket census is process wide
 	for _, k := range kinds {
 		for _, w := range whats {
 			if k == "udp" && w == "latedial" {
+				continue
+			}
+			if w == "blackhole" && k != "quic" {
 				continue
 			}
 			lifeScenario(k, w, rng)
